@@ -828,3 +828,153 @@ def writes_reads(e, out_w, out_r, ctx="r"):
         return
     for x in e.a:
         writes_reads(x, out_w, out_r, ctx if k == "cast" else "r")
+
+
+# --------------------------------------------------------------------------------------------------
+# single-assignment local scalars: let a rule that recognises an expression see through  jk = j[k];  ... jk ...
+def _written_names(s, skip_inc_of=None):
+    """(names of variables assigned, names of arrays / pointers stored through) under statement s"""
+    assigned, stored = set(), set()
+    header_init = set()
+    if skip_inc_of is not None and isinstance(skip_inc_of.init, S):
+        header_init = {id(x) for x in swalk(skip_inc_of.init)}
+    for st in swalk(s):
+        if id(st) in header_init:
+            continue
+        es = stmt_exprs(st)
+        if st is skip_inc_of and st.inc is not None:
+            es = [x for x in es if x is not st.inc]
+        for e in es:
+            w, r = [], []
+            writes_reads(e, w, r)
+            for x in w:
+                b = base_var(x)
+                if b is not None:
+                    (assigned if x.k == "var" else stored).add(b.name)
+            for x in ewalk(e):
+                if x.k == "call":   # a callee may store through any pointer it is handed
+                    for a in x.a:
+                        addr = a.k == "un" and a.op == "&"
+                        b = base_var(a.a[0] if addr else a)
+                        if b is not None and (addr or (a.ty and ("*" in a.ty or "[" in a.ty))):
+                            stored.add(b.name)
+        if st.k == "decl" and st.var is not None and st.init is not None:
+            assigned.add(st.var.name)
+    return assigned, stored
+
+
+def scalar_defs(func, constants_only=False):
+    """(constants_only: only the names defined outside every loop - they hold one value for the whole call.)
+    name -> defining expression for local scalars that are written at exactly one site (declaration initialiser or a plain
+    '=' statement), whose right side has no side effects and reads nothing that the innermost loop around the definition (or the
+    whole function when there is none) writes - apart from that loop's own counter.  Substituting such a name by its definition
+    inside that loop does not change what an expression means."""
+    params = {p.name for p in func.params}
+    sites = {}
+    parents = {}
+
+    def visit(s, loops):
+        if s is None:
+            return
+        if s.k == "decl" and s.var is not None and s.init is not None and isinstance(s.init, E):
+            sites.setdefault(s.var.name, []).append((s.init, loops[-1] if loops else None, "decl"))
+        for e in stmt_exprs(s):
+            for x in ewalk(e):
+                if x.k == "asg" and x.a[0].k == "var":
+                    plain = x.op == "=" and e is x and s.k == "expr"
+                    sites.setdefault(x.a[0].name, []).append((x.a[1] if plain else None, loops[-1] if loops else None, "asg"))
+                elif x.k == "incdec" and x.a[0].k == "var":
+                    sites.setdefault(x.a[0].name, []).append((None, None, "inc"))
+                elif x.k == "un" and x.op == "&" and x.a[0].k == "var":
+                    sites.setdefault(x.a[0].name, []).append((None, None, "addr"))
+        inner = loops + [s] if s.k in ("for", "while", "do") else loops
+        for attr in ("init", "then", "els"):
+            c = getattr(s, attr)
+            if isinstance(c, S):
+                visit(c, inner)
+        if isinstance(s.body, list):
+            for c in s.body:
+                visit(c, inner)
+        elif isinstance(s.body, S):
+            visit(s.body, inner)
+    visit(func.body, [])
+    groups = []
+    for st in swalk(func.body):
+        pairs = []
+        if st.k == "decl" and st.var is not None and isinstance(st.init, E) and st.var.ty and "*" in st.var.ty:
+            pairs.append((st.var.name, st.init))
+        for e in stmt_exprs(st):
+            for x in ewalk(e):
+                if x.k == "asg" and x.op == "=" and x.a[0].k == "var" and x.a[0].ty and "*" in x.a[0].ty:
+                    pairs.append((x.a[0].name, x.a[1]))
+        for nm, rhs in pairs:
+            src_ = rhs
+            while src_ is not None and src_.k == "cast":
+                src_ = src_.a[0]
+            if src_ is not None and src_.k == "un" and src_.op == "&":
+                src_ = src_.a[0]
+            b = base_var(src_) if src_ is not None else None
+            if b is not None and b.scope not in ("func", "enum"):
+                hit = [g for g in groups if nm in g or b.name in g]
+                new_g = {nm, b.name}
+                for g in hit:
+                    new_g |= g
+                    groups.remove(g)
+                groups.append(new_g)
+    out = {}
+    for name, ss in sites.items():
+        if name in params or len(ss) != 1 or ss[0][0] is None:
+            continue
+        rhs, loop, _ = ss[0]
+        if constants_only and loop is not None:
+            continue
+        if any(x.k in ("asg", "incdec", "call") for x in ewalk(rhs)):
+            continue
+        scope = loop if loop is not None else func.body
+        assigned, stored = _written_names(scope, skip_inc_of=loop)
+        for grp in groups:  # a store through a local pointer is a store to what it may point into
+            if grp & stored:
+                stored = stored | grp
+        assigned = assigned - {name}
+        # a variable that is itself written at one site only, outside any loop or in this same loop, has one value: reading it is fine
+        for v, vs in sites.items():
+            if v in assigned and len(vs) == 1 and vs[0][2] in ("decl", "asg") and vs[0][0] is not None and (vs[0][1] is None or vs[0][1] is loop) and v not in params:
+                assigned = assigned - {v}
+        reads = {x.name for x in ewalk(rhs) if x.k == "var" and x.scope not in ("func", "enum")}
+        w_, r_ = [], []
+        writes_reads(rhs, w_, r_)
+        content = {base_var(x).name for x in r_ if x.k != "var" and base_var(x) is not None}
+        if name in reads or reads & assigned or content & stored:
+            continue
+        out[name] = rhs
+    return out
+
+
+def esubst(e, defs, depth=3):
+    """copy of e with every variable that has an entry in defs replaced by its definition (recursively, depth-limited)"""
+    if e is None or not isinstance(e, E):
+        return e
+    if e.k == "var" and e.name in defs and depth > 0:
+        return esubst(defs[e.name], defs, depth - 1)
+    n = E(e.k)
+    for slot in E.__slots__:
+        setattr(n, slot, getattr(e, slot))
+    n.a = [esubst(c, defs, depth) if isinstance(c, E) else c for c in e.a]
+    if n.k == "idx" and n.a[0] is not e.a[0]:
+        # (&A[e])[x] and (A + e)[x] are A[e + x]
+        b = n.a[0]
+        while b.k == "cast" and b.ty and "*" in b.ty and b.a[0].ty == b.ty:
+            b = b.a[0]
+        if b.k == "un" and b.op == "&" and b.a[0].k == "idx":
+            n.a = [b.a[0].a[0], _plus(b.a[0].a[1], n.a[1])]
+        elif b.k == "bin" and b.op == "+" and b.a[0].ty and ("*" in b.a[0].ty or "[" in b.a[0].ty):
+            n.a = [b.a[0], _plus(b.a[1], n.a[1])]
+    return n
+
+
+def _plus(x, y):
+    if is_zero_lit(y):
+        return x
+    if is_zero_lit(x):
+        return y
+    return E("bin", op="+", a=[x, y], ty=x.ty, line=x.line)
